@@ -1,6 +1,7 @@
 (* C14 property theorems. This file contains only statements closed by
    [exact lemma] and Print Assumptions. *)
-From V Require Import Common.Base C14.Compat C14.Spec C14.CompatProofs.
+From Coq Require Import String.
+From V Require Import Common.Base C14.Compat C14.Spec C14.LowerGraph C14.CompatProofs C14.TableProofs C14.LowerClosed C14.LowerProofs.
 
 (* a newer ES target never makes more features unsupported: every pair of years *)
 Theorem es_monotone : forall y1 y2 f, y1 <= y2 ->
@@ -8,9 +9,126 @@ Theorem es_monotone : forall y1 y2 f, y1 <= y2 ->
 Proof. exact es_monotone_all. Qed.
 Print Assumptions es_monotone.
 
+(* FULL statement "every syntax feature's ES year in jsTable is its ECMA-262 edition" is
+   false of the regenerated table: dynamic import is tabled ES2015 (ECMA: ES2020), in the
+   unsafe direction (the table is EARLIER than the standard) *)
+Theorem es_years_match_ecma_refuted :
+  exists f, In f all_features /\ agrees_with_ecma f = false /\ not_earlier_than_ecma f = false.
+Proof. exact es_years_match_ecma_refuted_l. Qed.
+Print Assumptions es_years_match_ecma_refuted.
+
+(* ... and holds for every other feature except import attributes (ES2025, no ES entry: safe direction) *)
+Theorem es_years_match_ecma_partial :
+  forall f, f <> FDynamicImport -> f <> FImportAttributes -> agrees_with_ecma f = true.
+Proof. exact es_years_match_ecma_partial_l. Qed.
+Print Assumptions es_years_match_ecma_partial.
+
+(* consequence for every ES year (all integers): syntax newer than the target per ECMA-262 is
+   in the unsupported set computed by compat.UnsupportedJSFeatures (features absent from
+   jsTable altogether -- decorators, import defer/source -- and dynamic import excepted) *)
+Theorem es_target_flags_newer_partial :
+  forall f y, f <> FDynamicImport -> f <> FDecorators -> f <> FImportDefer -> f <> FImportSource ->
+    newer_than y f = true -> In f (unsupported_list (es_constraint y)).
+Proof. exact es_target_flags_newer_l. Qed.
+Print Assumptions es_target_flags_newer_partial.
+
+(* api.Target constants carry their own year *)
+Theorem es_targets_named_by_year : forallb target_name_year_ok es_targets = true.
+Proof. exact es_targets_named_by_year_l. Qed.
+Print Assumptions es_targets_named_by_year.
+
+(* StringToJSFeature (the keys of `supported`) is a bijection onto the feature enum *)
+Theorem supported_keys_bijective : string_table_ok = true.
+Proof. exact string_table_bijective_l. Qed.
+Print Assumptions supported_keys_bijective.
+
+(* every version range list of jsTable: non-empty, components fit uint16/uint8, start < end,
+   ascending and disjoint, only the last may be open; no duplicate engine or feature rows *)
+Theorem engine_ranges_well_formed : table_wf = true.
+Proof. exact engine_ranges_well_formed_l. Qed.
+Print Assumptions engine_ranges_well_formed.
+
+(* an open range is upward closed: every pair of three-part versions *)
+Theorem open_range_monotone : forall s v1 v2, vle3 v1 v2 ->
+  isVersionSupported [(s, (0, 0, 0))] (sv3 v1) = true -> isVersionSupported [(s, (0, 0, 0))] (sv3 v2) = true.
+Proof. exact open_range_upward_closed. Qed.
+Print Assumptions open_range_monotone.
+
 (* ApplyOverrides: for every feature the override wins where the mask is set (both
-   directions), the table value stays elsewhere *)
+   directions), the table value stays elsewhere; the result stays within 64 bits *)
 Theorem apply_overrides_spec : forall features overrides mask g,
   has (ApplyOverrides features overrides mask) g = if has mask g then has overrides g else has features g.
 Proof. exact ApplyOverrides_has. Qed.
 Print Assumptions apply_overrides_spec.
+
+Theorem apply_overrides_uint64 : forall f o m,
+  0 <= f < 2 ^ 64 -> 0 <= o < 2 ^ 64 -> 0 <= m < 2 ^ 64 -> 0 <= ApplyOverrides f o m < 2 ^ 64.
+Proof. exact ApplyOverrides_range. Qed.
+Print Assumptions apply_overrides_uint64.
+
+(* the whole configuration pipeline honours `supported` in both directions, for every
+   constraint map and every override list *)
+Theorem supported_false_honoured : forall cs sup g,
+  In (g, false) sup -> has (o_unsupported (configured_unsupported cs sup)) g = true.
+Proof. exact supported_false_wins. Qed.
+Print Assumptions supported_false_honoured.
+
+Theorem supported_true_honoured : forall cs sup g,
+  (forall b, In (g, b) sup -> b = true) -> In (g, true) sup ->
+  existsb (feature_eqb g) implied_targets = false ->
+  has (o_unsupported (configured_unsupported cs sup)) g = false.
+Proof. exact supported_true_wins. Qed.
+Print Assumptions supported_true_honoured.
+
+(* fixInvalidUnsupportedJSFeatureOverrides: after the call sequence of applyOptionDefaults every
+   implication of the table holds of the final options, for every starting state *)
+Theorem implied_overrides_consistent : forall o row, In row implied_table -> row_holds (fixAll o) row.
+Proof. exact implied_overrides_consistent_l. Qed.
+Print Assumptions implied_overrides_consistent.
+
+(* lowering closure, for EVERY unsupported set U that leaves array spread supported *)
+Theorem lowering_closed_partial : forall (U : fset) f g,
+  base_ok U = true -> U f = true -> dispose U f = Lowered -> In g (emits U f) ->
+  U g = false \/ (dispose U g = Lowered /\ rank g < rank f).
+Proof. exact lowering_closed_l. Qed.
+Print Assumptions lowering_closed_partial.
+
+(* FULL statement (no hypothesis on U) is false of the faithful model: class-field lowering
+   writes `super(...arguments)` *)
+Theorem lowering_closed_refuted :
+  exists (U : fset) f g, U f = true /\ dispose U f = Lowered /\ In g (emits U f) /\ U g = true /\ dispose U g <> Lowered.
+Proof. exact lowering_closed_refuted_l. Qed.
+Print Assumptions lowering_closed_refuted.
+
+(* iterated lowering ends with supported syntax only *)
+Theorem lowering_terminates_clean : forall (U : fset), base_ok U = true ->
+  forall n f, U f = true -> dispose U f = Lowered -> rank f < Z.of_nat n ->
+  forall g, In g (residual U n f) -> U g = false.
+Proof. exact residual_clean. Qed.
+Print Assumptions lowering_terminates_clean.
+
+(* a successful compile of any program (list of used features) writes only supported syntax,
+   except for what the model passes through silently ... *)
+Theorem compile_sound_partial : forall (U : fset) prog out,
+  base_ok U = true -> compile U prog = Ok out ->
+  forall g, In g out -> U g = false \/ dispose U g = Silent \/ dispose U g = NotSyntax.
+Proof. exact compile_sound_l. Qed.
+Print Assumptions compile_sound_partial.
+
+(* ... which is exactly hashbang; so the FULL statement "no unsupported syntax in a
+   successful output" is false of the faithful model *)
+Theorem only_hashbang_silent : forall (U : fset) f, dispose U f = Silent -> f = FHashbang.
+Proof. exact only_hashbang_is_silent. Qed.
+Print Assumptions only_hashbang_silent.
+
+Theorem compile_sound_refuted :
+  exists (U : fset) prog out g, compile U prog = Ok out /\ In g out /\ U g = true.
+Proof. exact silent_passthrough_refuted_l. Qed.
+Print Assumptions compile_sound_refuted.
+
+(* runtime helpers: whichever variants Source(U) selects, for EVERY U, the text only uses
+   features that are supported or that the parser compiling the runtime lowers *)
+Theorem runtime_variants_closed : forall (U : fset) n name g,
+  In g (helper_feats U n name) -> U g = false \/ dispose U g = Lowered.
+Proof. exact runtime_variants_closed_l. Qed.
+Print Assumptions runtime_variants_closed.
